@@ -618,6 +618,33 @@ func (e *Engine) observe() {
 		if t.rec == nil {
 			continue
 		}
+		// a request parked right before a channel receive is about to wait for a fetch; if
+		// the sender is already blocked on it the receive completes without the request ever
+		// being seen blocked: it is a coalesced request all the same, released by the task
+		// that had been blocked in its send
+		if k, _ := t.getSite(); t.getState() == tsParked && k == KRecv && len(t.rec.Ups) == 0 {
+			t.atRecv = true
+		} else if t.atRecv && !t.blocked {
+			t.atRecv = false
+			if t.rec.ReleasedBy == -1 && !t.wasBlocked {
+				by := -2
+				for j := 0; j < n; j++ {
+					u := tasksOf(j)
+					if u != t && u.prevSendBlocked && !u.blocked {
+						by = u.ID
+					}
+				}
+				t.rec.ReleasedBy = by
+				t.rec.ReleasedSeq = e.seq
+				if t.rec.BlockedSeq == 0 {
+					t.rec.BlockedSeq = e.seq
+				}
+				e.hist.Probes["waiter-registered-not-waiting-at-completion"]++
+				if debugTrace {
+					e.ev("released", t.Name, fmt.Sprintf("without blocking, by task %d", by))
+				}
+			}
+		}
 		if t.blocked && !t.wasBlocked && len(t.rec.Ups) > 0 {
 			// a fetcher blocked while handing its result to a waiter: not a coalesced request
 			t.sendBlocked = true
@@ -651,6 +678,10 @@ func (e *Engine) observe() {
 			}
 		}
 		t.wasBlocked = t.blocked
+	}
+	for i := 0; i < n; i++ {
+		t := tasksOf(i)
+		t.prevSendBlocked = t.sendBlocked && t.blocked
 	}
 	// abstract state for the reach measure
 	e.noteState()
